@@ -119,7 +119,42 @@ let () =
             [len land 255; (len lsr 8) land 255; 0; 0; pick r [| 2; 3; 4; 5; 1; 6 |]; 0] @ body
           else body in
         k fam sec l
-      done);
+      done;
+      (* several length-prefixed sets, one of them damaged INSIDE (not in its header): an iterator that is
+         documented to stop after an error must not go on with the following, intact sets *)
+      let le16 v = [v land 255; (v lsr 8) land 255] in
+      let le32 v = [v land 255; (v lsr 8) land 255; (v lsr 16) land 255; (v lsr 24) land 255] in
+      let le64 v = le32 v @ [0; 0; 0; 0] in
+      let str x = List.init (String.length x) (fun i -> Char.code x.[i]) in
+      let with_len fmt64 body = (if fmt64 then [0xff; 0xff; 0xff; 0xff] @ le64 (List.length body) else le32 (List.length body)) @ body in
+      let pub_set fmt64 kind i =
+        let w v = if fmt64 then le64 v else le32 v in
+        let hdr ver = le16 ver @ w (100 * i) @ w 50 in
+        let name = Printf.sprintf "n%d" i in
+        match kind with
+        | 0 -> with_len fmt64 (hdr 2 @ w 11 @ str name @ [0] @ w 23 @ str "second" @ [0] @ w 0)       (* intact *)
+        | 1 -> with_len fmt64 (hdr 2 @ w 11 @ str name @ [0] @ w 23 @ str "no-nul-to-the-end")        (* unterminated name *)
+        | 2 -> with_len fmt64 (hdr 2 @ w 11 @ str name @ [0] @ [5; 0])                                (* offset cut short *)
+        | 3 -> with_len fmt64 (hdr 2 @ w 11 @ str name)                                               (* first name unterminated *)
+        | _ -> with_len fmt64 (hdr 2 @ w 11 @ str name @ [0])                                         (* no terminator *) in
+      let ar_set kind i =
+        let hdr asz seg = le16 2 @ le32 (100 * i) @ [asz; seg] in
+        let pad = [0; 0; 0; 0] in
+        match kind with
+        | 0 -> with_len false (hdr 4 0 @ pad @ le32 (0x1000 * (i + 1)) @ le32 0x10 @ le32 0 @ le32 0)                 (* intact *)
+        | 1 -> with_len false (hdr 4 0 @ pad @ le32 (0x1000 * (i + 1)) @ le32 0x10 @ le32 0x2000 @ [1; 0])           (* tuple cut short *)
+        | 2 -> with_len false (hdr 4 0 @ pad @ le32 0xfffffff0 @ le32 0x20 @ le32 0x3000 @ le32 4 @ le32 0 @ le32 0)    (* address overflow, then a good tuple *)
+        | 3 -> with_len false (hdr 4 0 @ pad @ le32 (0x1000 * (i + 1)) @ le32 0x10)                                  (* no terminator *)
+        | _ -> with_len false (hdr 4 0 @ pad @ le32 (0x1000 * (i + 1)) @ le32 0x10 @ le32 0 @ le32 0 @ le32 7 @ le32 7) (* data after the terminator *) in
+      List.iter (fun nsets ->
+        for bad = 0 to nsets - 1 do
+          for kind = 1 to 4 do
+            List.iter (fun fmt64 ->
+              let l = List.concat (List.init nsets (fun i -> pub_set fmt64 (if i = bad then kind else 0) i)) in
+              k "misc" "debug_pubnames" l; k "misc" "debug_pubtypes" l) [false; true];
+            k "dwarf" "debug_aranges" (List.concat (List.init nsets (fun i -> ar_set (if i = bad then kind else 0) i)))
+          done
+        done) [2; 3]);
   (* deep / long inputs that exercise recursion and per-item loops: stack depth and linear-time checks *)
   register "c01.deep" ~doc:"large structured inputs: long runs of zero aranges tuples, deeply nested DIE children, long nop CFI programs"
     (fun ~seed:_ ~n emit ->
@@ -211,6 +246,35 @@ let () =
           Array.iter (fun op ->
             fin emit (Printf.sprintf "c01.expr %d 1 %s" asz (hex_of_ints ((0x0e :: bytes_of 8 a) @ (0x0f :: bytes_of 8 b) @ [op; 0x9f]))))
             binops done done) [1; 2; 4; 8];
+      (* loops whose body suspends for a caller answer: the iteration limit must bound the WHOLE evaluation,
+         across resumes, whatever the answers (a backward DW_OP_skip, or DW_OP_bra on a non-zero constant) *)
+      let bodies = [ [0x91; 0x00];                    (* fbreg 0 *)
+                     [0x30; 0x06];                    (* lit0; deref *)
+                     [0x9c];                          (* call_frame_cfa *)
+                     [0x70; 0x00];                    (* breg0 0 *)
+                     [0x92; 0x05; 0x7f];              (* bregx 5 -1 *)
+                     [0x97];                          (* push_object_address (no suspension) *)
+                     [0x30; 0x9b];                    (* lit0; form_tls_address *)
+                     [0x30; 0x94; 0x02];              (* lit0; deref_size 2 *)
+                     [0xa1; 0x00];                    (* addrx 0 *)
+                     [0x03; 1; 0; 0; 0; 0; 0; 0; 0];  (* addr (relocated address) *)
+                     [0xa3; 0x01; 0x50];              (* entry_value(reg0) *)
+                     [0xfa; 1; 0; 0; 0];              (* GNU_parameter_ref *)
+                     [0xa5; 0x01; 0x05];              (* regval_type r1 type@5 *)
+                     [0x30; 0xa6; 0x04; 0x05] ]       (* lit0; deref_type 4 type@5 *) in
+      let two n = [n land 255; (n asr 8) land 255] in
+      List.iter (fun asz ->
+        List.iter (fun body ->
+          List.iter (fun reps ->
+            let b = List.concat (List.init reps (fun _ -> body @ [0x13])) in     (* body; drop *)
+            let l = List.length b in
+            (* skip back over the body and the skip itself *)
+            fin emit (Printf.sprintf "c01.expr %d 7 %s" asz (hex_of_ints (b @ (0x2f :: two (-(l + 3))))));
+            (* lit1; bra back *)
+            fin emit (Printf.sprintf "c01.expr %d 8 %s" asz (hex_of_ints (b @ [0x31] @ (0x28 :: two (-(l + 4))))));
+            (* a call whose answer is the looping expression itself is covered by the at_location answers *)
+            fin emit (Printf.sprintf "c01.expr %d 9 %s" asz (hex_of_ints (b @ [0x98; 0; 0; 0x13] @ (0x2f :: two (-(l + 7))))))
+          ) [1; 2; 5]) bodies) [4; 8];
       for _ = 1 to n do
         let len = 1 + rand_int r 12 in
         let prog = List.concat (List.init len (fun _ ->
